@@ -121,7 +121,12 @@ fn run(args: &Args) {
         }
         "C03" => mon_c::run_c03(&args.tier, args.seed, args.shard, args.nshards, args.scale, &mut stats),
         "C06" => mon_c::run_c06(&args.tier, args.seed, args.shard, args.nshards, args.scale, &mut stats),
-        "C07" => mon_e::loader_inputs(&args.tier, args.seed, args.shard, args.nshards, args.scale, &mut stats, &mut |s, st| mon_e::check_c07(s, st)),
+        "C07" => {
+            mon_e::loader_inputs(&args.tier, args.seed, args.shard, args.nshards, args.scale, &mut stats, &mut |s, st| mon_e::check_c07(s, st));
+            if args.shard == 0 {
+                mon_e::check_corpus_json(&mut stats);
+            }
+        }
         "C19" => {
             let mut r2 = Rng::derive(args.seed, 0x19, args.shard);
             mon_e::loader_inputs(&args.tier, args.seed, args.shard, args.nshards, args.scale, &mut stats, &mut |s, st| mon_e::check_c19(s, st, &mut r2))
